@@ -293,7 +293,7 @@ func runC14Free(tb ev.TB, p c14Prog) ev.Result {
 		rep = 1
 	}
 	if ev.Replaying() {
-		rep = 40
+		rep = ev.EnvInt("VERIF_REPLAY_REPS", 40)
 	}
 	var running, overlap int32
 	for r := 0; r < rep; r++ {
